@@ -103,6 +103,17 @@ def error_probe(exc) -> str | None:
     return None
 
 
+def raise_site(exc) -> str:
+    """file:function of the innermost liquid2 frame an exception passed through."""
+    import traceback
+    site = "?"
+    for fr in traceback.extract_tb(exc.__traceback__):
+        fn = fr.filename.replace("\\", "/")
+        if "/liquid2/" in fn:
+            site = fn.split("/liquid2/", 1)[1] + ":" + fr.name
+    return site
+
+
 def outcome(fn) -> dict:
     from liquid2.exceptions import LiquidError
 
@@ -112,9 +123,10 @@ def outcome(fn) -> dict:
         return {"ok": False, "err": type(e).__name__, "mro": [c.__name__ for c in type(e).__mro__],
                 "probe": error_probe(e), "msg": str(e)[:200] if not error_probe(e) else ""}
     except RecursionError:
-        return {"ok": False, "err": "RecursionError", "mro": [], "nonliquid": True, "msg": ""}
+        return {"ok": False, "err": "RecursionError", "mro": [], "nonliquid": True, "msg": "", "site": "?"}
     except Exception as e:  # noqa: BLE001
-        return {"ok": False, "err": type(e).__name__, "mro": [], "nonliquid": True, "msg": str(e)[:200]}
+        return {"ok": False, "err": type(e).__name__, "mro": [], "nonliquid": True, "msg": str(e)[:200],
+                "site": raise_site(e)}
 
 
 def render_record(rec: dict, *, mode: str = "sync") -> tuple[dict, dict]:
